@@ -97,6 +97,15 @@ def decorate(ad, rng, index, p_style=0.35, p_anim=0.2, nonzero_offsets=True):
 
   ad["styles"] = [some_styles(p_style) if ad["kind"][k] not in ("text",) else [] for k in range(ad["n"])]
   ad["anim_styles"] = [some_anims(p_anim) if ad["kind"][k] not in ("text",) else [] for k in range(ad["n"])]
+  if rng.random() < 0.3:
+    # the same (value-equal) style animation step on several elements with different begin times
+    prop = rng.choice(props)
+    shared = [prop, rng.choice(index[prop]), 2 * rng.randrange(0, 3 * (D // 2) + 1), t_opt()]
+    cands = [k for k in range(ad["n"]) if ad["kind"][k] in ("p", "span", "div")]
+    for k in rng.sample(cands, min(len(cands), rng.randint(2, 3))):
+      ad["anim_styles"][k] = ad["anim_styles"][k] + [list(shared)]
+      if ad["b"][k] == NONE_T and rng.random() < 0.7:
+        ad["b"][k] = 2 * rng.randrange(1, 4 * (D // 2) + 1)
   ad["rstyles"] = [some_styles(0.7) for _ in range(ad["nr"])]
   ad["ranim_styles"] = [some_anims(0.4) for _ in range(ad["nr"])]
   # Display is modelled by disp/anim of the abstract document: keep it out of the decorations
